@@ -4,6 +4,7 @@ Driver ops of the codec model group: `norm` (decode a document as a kind, encode
 import SpecModel.Wire
 import SpecModel.Codec.Norm
 import SpecModel.Codec.Gob
+import SpecModel.Codec.Idem
 
 namespace SpecModel.CodecOps
 open SpecModel SpecModel.Codec
@@ -22,10 +23,17 @@ def gobOp (j : Lean.Json) : Except String String := do
   let doc ← Wire.jsonField j "doc"
   pure (gobJ kind doc).render
 
+/-- `{"op":"clean","doc":<wire JSON: an encoding>}` ↦ `clean` | `unclean`: the executable test (`cleanB`, proved
+to imply `Clean`) for the hypothesis of the whole-document idempotence theorem -/
+def cleanOp (j : Lean.Json) : Except String String := do
+  let doc ← Wire.jsonField j "doc"
+  pure (if cleanB doc then "clean" else "unclean")
+
 def op (name : String) (j : Lean.Json) : Except String String :=
   match name with
   | "norm" => normOp j
   | "gob" => gobOp j
+  | "clean" => cleanOp j
   | _ => .error s!"bad-op:unknown {name}"
 
 end SpecModel.CodecOps
